@@ -96,6 +96,7 @@ const (
 )
 
 func goPanic(msg string) {
+	E.lastPanicStack = E.stack()
 	panic(targetPanic{msg: msg})
 }
 
@@ -187,6 +188,7 @@ func visitInstr(fr *frame, instr ssa.Instruction) continuation {
 		fr.runDefers()
 
 	case *ssa.Panic:
+		E.lastPanicStack = E.stack()
 		panic(targetPanic{v: fr.get(instr.X)})
 
 	case *ssa.Send:
